@@ -5,7 +5,8 @@ M="$1"; TIER="${2:-quick}"; PROP="${3:-$(echo "$M" | cut -d- -f1)}"
 cd /verif
 if [ -n "$(git -C /repo status --porcelain)" ]; then echo "/repo not clean"; exit 3; fi
 git -C /repo apply "/verif/seeded/$M/patch.diff" || { echo "apply failed"; exit 3; }
-.venv/bin/python -m vf.check "$PROP" --tier "$TIER" > "/tmp/mut/try-$M-$PROP.log" 2>&1; RC=$?
+mkdir -p /tmp/mut/ev /tmp/mut/rp
+VERIF_EVIDENCE_DIR=/tmp/mut/ev VERIF_REPLAY_DIR=/tmp/mut/rp .venv/bin/python -m vf.check "$PROP" --tier "$TIER" > "/tmp/mut/try-$M-$PROP.log" 2>&1; RC=$?
 git -C /repo checkout -- . 
 echo "$M vs $PROP ($TIER): rc=$RC  $(grep -c '^VIOLATION' /tmp/mut/try-$M-$PROP.log) violation lines; $(tail -1 /tmp/mut/try-$M-$PROP.log | cut -c1-200)"
 exit 0
